@@ -1131,21 +1131,34 @@ func Crit(f func()) {
 }
 
 // Sleep blocks for d of simulated time or until ctx is done, then yields.
+// When the timer and the cancellation fall on the same simulated instant the
+// winner is a schedule-tape decision (the Go runtime's own choice between two
+// ready select cases cannot be seeded).
 func Sleep(ctx context.Context, d time.Duration, site string) error {
 	if d <= 0 {
 		Yield(site)
 		return ctx.Err()
 	}
+	deadline := time.Now().Add(d)
 	tm := time.NewTimer(d)
 	defer tm.Stop()
-	var err error
 	select {
 	case <-tm.C:
 	case <-ctx.Done():
-		err = ctx.Err()
 	}
 	Yield(site)
-	return err
+	timerDue := !time.Now().Before(deadline)
+	cancelled := ctx.Err() != nil
+	switch {
+	case timerDue && cancelled:
+		if Draw(2) == 0 {
+			return nil
+		}
+		return ctx.Err()
+	case cancelled:
+		return ctx.Err()
+	}
+	return nil
 }
 
 // Draw returns a tape-decided value in [0,n) from the running task.
